@@ -86,6 +86,7 @@ theorem next_out_eq (s : StandardDeviation F) (x : F) (r : StandardDeviation F Ã
 
 theorem nextBar_eq (s : StandardDeviation F) (b : Bar F) : s.nextBar b = s.next b.close := by
   unfold nextBar
+  try simp only [gen_helper]
   cases h : s.next b.close <;> simp [h]
 
 /-- the `mean()` accessor reads the running mean field -/
